@@ -761,7 +761,7 @@ pub fn finish(ctx: &Ctx) -> i32 {
     crate::engine::finish(
         ctx,
         Finish {
-            rule: "cases: (a) complete grid: {int,float} x widths {8,16,32,64,1,24,48,128,0} x signedness x consumer {OpConstant, OpSpecConstant, OpSwitch with 2 cases} x {1,2} literal words x propagation depth 0-2 x distance 0-2; (b) random histories of 2-15 instructions interleaving OpTypeInt/OpTypeFloat (supported and unsupported widths), typed values (OpUndef/OpVariable/OpLoad/OpIAdd chains), consumers placed before/after their declarations, each encoded with 1 or 2 literal words, and unrelated instructions; ids defined once; (b') the same histories under a bijective id renaming that sends 1-3 defined ids to 0 / 0x7fffffff / 0x80000000 / 0xffffffff; (b'') histories in which type ids are declared more than once: the parser must follow one consistent reading for the whole binary (latest preceding declaration, or first), and inserting an unrelated OpUndef anywhere must not change what any consumer delivers; (b''') histories with OpFunction / OpFunctionParameter / OpLabel / OpReturn / OpFunctionEnd scattered through them (consumers in later functions, declarations at module scope or in earlier function bodies); (c) pairs (A, B) - A one time in three a large history of 40-160 instructions (dozens of tracked ids) -: B after A in the same thread vs B alone in a fresh thread, A twice. Oracle: model R3 (inside reference parser R1): words consumed / TypeUnsupported / accept-or-reject of each consumer, delivered variant LiteralBit32 vs LiteralBit64 with value = low | high<<32, assemble emits the input's word count, outcomes independent of earlier parses. non-trivial = consumer whose type was declared >= 2 instructions earlier or reaches it through >= 1 propagation step (independence: every pair); distinct = hash of the words.",
+            rule: "cases: (a) complete grid: {int,float} x widths {8,16,32,64,1,24,48,128,0} x signedness x consumer {OpConstant, OpSpecConstant, OpSwitch with 2 cases} x {1,2} literal words x propagation depth 0-2 x distance 0-2; (b) random histories of 2-15 instructions interleaving OpTypeInt/OpTypeFloat (supported and unsupported widths), typed values (OpUndef/OpVariable/OpLoad/OpIAdd chains), consumers placed before/after their declarations, each encoded with 1 or 2 literal words, and unrelated instructions; ids defined once; (b') the same histories under a bijective id renaming that sends 1-3 defined ids to 0 / 0x7fffffff / 0x80000000 / 0xffffffff; (b'') histories in which type ids are declared more than once: the parser must follow one consistent reading for the whole binary (latest preceding declaration, or first), and inserting an unrelated OpUndef anywhere must not change what any consumer delivers; (b''') histories with OpFunction / OpFunctionParameter / OpLabel / OpReturn / OpFunctionEnd scattered through them (consumers in later functions, declarations at module scope or in earlier function bodies); (c) pairs (A, B) - A one time in three a large history of 40-160 instructions (dozens of tracked ids) -: B after A in the same thread vs B alone in a fresh thread, A twice. Oracle: model R3 (inside reference parser R1): words consumed / TypeUnsupported / accept-or-reject of each consumer, delivered variant LiteralBit32 vs LiteralBit64 with value = low | high<<32, assemble emits the input's word count, outcomes independent of earlier parses. non-trivial = consumer whose type was declared >= 2 instructions earlier or reaches it through >= 1 propagation step (independence: every pair); distinct = hash of the words. Added in rounds 18-19: edge-ids at powers of two and ten; bulk-histories (up to 10^6 declarations, chains of values typed by values) and vocabulary-histories (module head declaring a coded half of every capability / extension / set).",
             assumptions: vec!["ids are defined once except in `redeclared-ids`, where the statement leaves open which declaration decides and both consistent readings are accepted".into()],
             trusted_base: vec!["width model R3".into(), "reference parser R1".into()],
         },
